@@ -54,6 +54,13 @@ PROPS = {
               "Basis2/Basis3 values with arbitrary matrices are built by transmuting a matrix (single-field struct) in the harness only",
               "native f32/f64: the compound relations are compared with the conjunction of the scalar answers per component (clauses native:*)"],
              trusted=["rustc monomorphisation of the generic code at Xq, f32, f64", "the approx crate's scalar impls (oracle)"]),
+    "C19": P(19, assumptions=["model (coq/Model/Cast.v) is hand-written; tied to /repo by the correspondence of this run",
+              "the scalar numeric cast (num_traits::NumCast::from) is an oracle: its answer per component is recorded by the harness and handed to the model as a table",
+              "NaN / +inf / -inf are encoded as three reserved rationals in the case files"],
+             rule="all 12x12 source/target scalar pairs (float targets only for quaternions) x every compound type x a special value (extreme, non-finite, "
+                  "fractional, out of range) in each single position, typical distinct values elsewhere; non-trivial = the case has inputs (tag nt:<src>-><dst>); distinct by hash",
+             coverage_extra={"exhaustive_over": "12 x 12 scalar type pairs; every component position of every compound type"},
+             trusted=["rustc monomorphisation at the 144 type pairs", "num_traits::NumCast (oracle)"]),
     "C12": P(12, assumptions=["model (coq/Model/Point.v) is hand-written; tied to /repo by the exact-arithmetic correspondence of this run",
               "integer scalar types: only no-overflow inputs", "centroid of the empty list divides by cast(0): outside the property (non-empty lists)"],
              trusted=["rustc monomorphisation of the generic code at Xq and i32"]),
